@@ -4,7 +4,9 @@
 ROOT="$(cd "$(dirname "$0")/.." && pwd)"; TIER="${1:-quick}"
 OUT="$ROOT/seeded/RESULTS.md"
 echo "| seeded change | property | tier | detected | violation keys |" > "$OUT.tmp"; echo "|---|---|---|---|---|" >> "$OUT.tmp"
-for D in "$ROOT"/seeded/C*-m*; do
+# SEED_ONLY="C*-m9 C*-m10": restrict the run to matching directories (RESULTS.md is always rebuilt from every detection.json)
+SEL=(); for pat in ${SEED_ONLY:-C*-m*}; do for d in "$ROOT"/seeded/$pat; do [ -d "$d" ] && SEL+=("$d"); done; done
+for D in "${SEL[@]}"; do
   n=$(basename "$D")
   if [ -f "$D/superseded" ]; then
     echo "| $n | - | - | n/a | $(head -c 400 "$D/superseded" | tr '\n' ' ') |" >> "$OUT.tmp"; echo "$n: superseded"; continue
@@ -35,4 +37,25 @@ PY
   echo "| $n | $by | $TIER | $([ "$rc" = "1" ] && echo yes || echo NO) | \`$(echo $keys | cut -c1-160)\` |" >> "$OUT.tmp"
   echo "$n: exit=$rc"
 done
-mv "$OUT.tmp" "$OUT"
+rm -f "$OUT.tmp"
+python3 - "$ROOT" <<'PY'
+import json,glob,os,sys,re
+root=sys.argv[1]
+rows=["| seeded change | detected by | tier | detected | violation keys / note |","|---|---|---|---|---|"]
+def key(d):
+    m=re.match(r".*/(C\d+)-m(\d+)$",d); return (m.group(1),int(m.group(2)))
+for d in sorted(glob.glob(root+"/seeded/C*-m*"),key=key):
+    n=os.path.basename(d)
+    if os.path.exists(d+"/superseded"):
+        rows.append(f"| {n} | - | - | n/a | {open(d+'/superseded').read().strip()[:400]} |"); continue
+    try: det=json.load(open(d+"/detection.json"))
+    except Exception:
+        rows.append(f"| {n} | - | - | not run | |"); continue
+    by=det.get("detected_by") or det.get("check","").replace("./run ","").split(" ")[0]
+    tier=(det.get("check","").split(" ")+["",""])[-1]
+    note=det.get("note","")
+    keys=str(det.get("violation_keys",""))[:160]
+    rows.append(f"| {n} | {by} | {tier} | {'yes' if det.get('detected') else 'NO'} | `{keys}`{(' ' + note) if note else ''} |")
+open(root+"/seeded/RESULTS.md","w").write("\n".join(rows)+"\n")
+print("RESULTS.md:",sum(1 for r in rows if "| yes |" in r),"detected of",len(rows)-2)
+PY
